@@ -320,6 +320,42 @@ class C16(Prop):
             from .sweep import place_ticks
             planes, _ = place_ticks(S('ticks'), spec, ('region', 'power'))
             spec['axial_plane'] = planes
+        # detailed assembly tables: post-processing reads the request list
+        # that lives inside the parsed input and the dump files of *this*
+        # time point
+        gt = S('tables')
+        if rng.chance(gt, 0.4):
+            # only requests DASSH's table writers can serve: they index
+            # Reactor.assemblies by position number (wrong behind an empty
+            # position), read one average row per assembly (IndexError with
+            # two ducts) and expect pin-bundle rows (IndexError inside an
+            # unrodded region) - outside the listed properties, so avoided
+            types = {t['name']: t for t in spec['types']}
+            L = spec['core']['length']
+            ok = []
+            for k, p in enumerate(spec['positions']):
+                if not p:
+                    break
+                t = types[p['type']]
+                if t.get('lowfi') or t.get('axial_regions'):
+                    continue
+                ok.append((k + 1, len(t['duct_ftf']) // 2))
+            tables = {}
+            for name in ['tbl_a', 'tbl_b'][:int(gt.integers(1, 3))]:
+                kind = rng.choice(gt, ['coolant_subchannel', 'duct_mw'])
+                cand = [a for a, nd in ok
+                        if kind == 'coolant_subchannel' or nd == 1]
+                zs = sorted(set(world._r(gt.uniform(0.02, 0.98) * L, 5)
+                                for _ in range(int(gt.integers(1, 5)))))
+                if not cand:
+                    continue
+                na = int(gt.integers(1, min(3, len(cand)) + 1))
+                asm = sorted(int(a) for a in
+                             gt.choice(cand, size=na, replace=False))
+                tables[name] = {'type': kind, 'assemblies': asm,
+                                'axial_positions': zs}
+            if tables:
+                spec['setup']['AssemblyTables'] = tables
         ntp = len(spec['power'])
         ops = []
         for _ in range(int(g.integers(3, 7))):
